@@ -509,6 +509,8 @@ def glif_doc(g, rng, want, applied):
             a = [("identifier", c["identifier"])] if "identifier" in c else []
             s = element("contour", a, syn, 2)
             s = s[: s.rindex("/>")].rstrip(" ") + ">"
+            if want == "comment-in-glyph":
+                s += syn.pad(3) + "<!-- a comment inside contour -->"
             for pt in c["points"]:
                 pa = [("x", num_str(pt["x"], rng)), ("y", num_str(pt["y"], rng))]
                 if pt["type"] != "offcurve" or rng.random() < 0.3:
@@ -540,6 +542,8 @@ def glif_doc(g, rng, want, applied):
             src = items if (items and (not citems or rng.random() < 0.5)) else citems
             merged.append(src.pop(0)[1])
         if merged:
+            if want == "comment-in-glyph":
+                merged.insert(rng.randrange(len(merged) + 1), syn.pad(2) + "<!-- a comment inside outline -->")
             parts.append(["outline", syn.pad(1) + "<outline>" + "".join(merged) + syn.pad(1) + "</outline>"])
         else:
             parts.append(["outline", syn.pad(1) + rng.choice(["<outline/>", "<outline></outline>"])])
